@@ -163,9 +163,11 @@ def one_case(rec, tap, rng, cid):
                 return
             rec.event("noise-free twins not converged to zero residual "
                       "(termination-noise tolerance)")
-            # (worst seen on the unchanged tree: 1.8e-4 in 2 x 192000
-            #  twins, a 150-point plateau fit; semantic breaks give O(0.1))
-            t_cp, t_e = 1e-3, 1e-3
+            # (worst seen on the unchanged tree: 3.8e-3 in 3 x 192000
+            #  twins - plateau fits in a flat valley of the objective;
+            #  semantic breaks give several per cent at least: a wrong
+            #  exponent is 5 % for k = 0.9)
+            t_cp, t_e = 1e-2, 1e-2
         if nelder:
             # Nelder-Mead reaches 1e-8 on noise-free data when it converges
             # (C01) but may stop early on its absolute tolerances
